@@ -15,9 +15,11 @@ func (p *Pool) Run(ctx context.Context) {
 	}
 	verifhook.At("wpool.run.afterTryLock")
 
+	// The channel first: a Send that sees the new context must not see the
+	// closed channel of the previous run.
+	p.ch = make(chan Event, p.opts.NumWorkers*2) //nolint:mnd
 	p.ctx, p.cancel = context.WithCancel(ctx)
 	verifhook.At("wpool.run.afterCtx")
-	p.ch = make(chan Event, p.opts.NumWorkers*2) //nolint:mnd
 	for range p.opts.NumWorkers {
 		p.runWg.Add(1)
 		go p.run() //nolint:contextcheck
